@@ -284,9 +284,9 @@ func runC16(x *simkit.Exec) {
 		}
 		return vs[x.Draw("value", len(vs))]
 	}
-	plans := make([][]c16Call, nReaders)
-	for i := range plans {
-		n := x.Range("ncalls", 2, 6)
+	genCalls := func(lo, hi int) []c16Call {
+		var out []c16Call
+		n := x.Range("ncalls", lo, hi)
 		for j := 0; j < n; j++ {
 			c := c16Call{kind: x.Draw("call", 6)}
 			switch c.kind {
@@ -304,8 +304,18 @@ func runC16(x *simkit.Exec) {
 			case 4:
 				c.off = uint32(x.Draw("symbol", nsym+2))
 			}
-			plans[i] = append(plans[i], c)
+			out = append(out, c)
 		}
+		return out
+	}
+	plans := make([][]c16Call, nReaders)
+	for i := range plans {
+		plans[i] = genCalls(2, 6)
+	}
+	// final phase (not scheduled, truly concurrent, for the race detector): calls per reader
+	storm := make([][]c16Call, nReaders)
+	for i := range storm {
+		storm[i] = genCalls(1, 3)
 	}
 	nClose := x.Draw("closes", 4)
 	closerPlan := make([]int, nClose) // 0 reader.Close, 1 pool.Close
@@ -346,11 +356,55 @@ func runC16(x *simkit.Exec) {
 		}
 		defer rd.Close()
 		treg := &taskReg{}
-		installYield(ctx, s, treg, nil)
+		parkCtx, unpark := context.WithCancel(ctx)
+		defer unpark()
+		installYield(parkCtx, s, treg, nil)
 		defer verifhook.Set(nil)
-		s.Delays = []time.Duration{idle / 10, idle + idle/10, 3 * idle}
+		// never aligned with the sweeper's timer (idle/10 period): which of two timers due at the same
+		// instant fires first is up to the runtime
+		s.Delays = []time.Duration{idle/10 + 137*time.Nanosecond, idle + idle/10 + 251*time.Nanosecond, 3*idle + 401*time.Nanosecond}
 
 		var mu sync.Mutex
+		// one performs a call on the lazy reader and judges it against the always-loaded reference.
+		one := func(name string, c c16Call, scheduled bool) {
+			want := c16Render(c16Do(ctx, ref, c))
+			v, err := c16Do(ctx, rd, c)
+			got := c16Render(v, err)
+			if scheduled {
+				s.Note("%s %s -> %s", name, c, got)
+			}
+			if got == want {
+				if scheduled {
+					mu.Lock()
+					answers++
+					mu.Unlock()
+				}
+				return
+			}
+			if err != nil {
+				switch {
+				case strings.Contains(err.Error(), "concurrently unloaded"):
+					if scheduled {
+						s.Probe("c16.err_unloaded_while_loading")
+					}
+					return
+				case faultsOn && errors.Is(err, errC16Injected):
+					if scheduled {
+						s.Probe("c16.err_injected_load_failure")
+					}
+					return
+				}
+				// an error nobody injected and that is not the documented unload race: the harness
+				// cannot tell whose fault it is
+				x.Troublef("c16: %s %s returned an unexpected error: %v (always-loaded reader: %s)", name, c, err, want)
+				return
+			}
+			phase := ""
+			if !scheduled {
+				phase = ":concurrent-phase"
+			}
+			s.Violate("same-answer-as-always-loaded", "wrong-answer:"+c.method()+phase, "%s %s returned %s; an always-loaded BinaryReader over the same index returns %s", name, c, got, want)
+		}
 		for i := 0; i < nReaders; i++ {
 			i := i
 			name := fmt.Sprintf("reader%d", i)
@@ -359,41 +413,17 @@ func runC16(x *simkit.Exec) {
 				treg.register(name)
 				defer treg.unregister()
 				for _, c := range plans[i] {
-					if s.Park(ctx, s.OpID(name, "next")) != nil {
+					if s.Park(parkCtx, s.OpID(name, "next")) != nil {
 						return
 					}
-					want := c16Render(c16Do(ctx, ref, c))
-					v, err := c16Do(ctx, rd, c)
-					got := c16Render(v, err)
-					s.Note("%s %s -> %s", name, c, got)
-					if got == want {
-						mu.Lock()
-						answers++
-						mu.Unlock()
-						continue
-					}
-					if err != nil {
-						switch {
-						case strings.Contains(err.Error(), "concurrently unloaded"):
-							s.Probe("c16.err_unloaded_while_loading")
-							continue
-						case faultsOn && errors.Is(err, errC16Injected):
-							s.Probe("c16.err_injected_load_failure")
-							continue
-						}
-						// an error nobody injected and that is not the documented unload race: the harness
-						// cannot tell whose fault it is
-						x.Troublef("c16: %s %s returned an unexpected error: %v (always-loaded reader: %s)", name, c, err, want)
-						continue
-					}
-					s.Violate("same-answer-as-always-loaded", "wrong-answer:"+c.method(), "%s %s returned %s; an always-loaded BinaryReader over the same index returns %s", name, c, got, want)
+					one(name, c, true)
 				}
 			})
 		}
 		if nClose > 0 {
 			s.Go("closer", func() {
 				for k, op := range closerPlan {
-					if s.Park(ctx, s.OpID("closer", "next")) != nil {
+					if s.Park(parkCtx, s.OpID("closer", "next")) != nil {
 						return
 					}
 					if op == 1 {
@@ -417,6 +447,36 @@ func runC16(x *simkit.Exec) {
 			reloads = loads - 1
 			x.Probe("c16.reloaded_after_unload")
 		}
+		if x.Failed() || len(x.Trouble) > 0 {
+			return
+		}
+		// Final phase: the same kinds of calls, truly concurrent with unloads, nothing scheduled and
+		// nothing logged (the outcome of each call may legitimately be an answer or the unload error;
+		// the verdict on correct code is the same either way). This is what the race detector and
+		// SetPanicOnFault get to see of interleavings inside the critical sections.
+		unpark() // yield hooks pass through from here on
+		s.FaultsOff = true
+		var wg sync.WaitGroup
+		for i := 0; i < nReaders; i++ {
+			i := i
+			name := fmt.Sprintf("reader%d", i)
+			wg.Add(1)
+			s.Go(name+"-concurrent", func() {
+				defer wg.Done()
+				debug.SetPanicOnFault(true)
+				for _, c := range storm[i] {
+					one(name, c, false)
+				}
+			})
+		}
+		wg.Add(1)
+		s.Go("closer-concurrent", func() {
+			defer wg.Done()
+			for k := 0; k < 3; k++ {
+				_ = rd.Close()
+			}
+		})
+		wg.Wait()
 	})
 	x.ProbeN("c16.answers", answers)
 	x.Nontrivial = answers > 0 && reloads > 0
